@@ -386,7 +386,7 @@ type vc04Query struct {
 func TestVerifC04EcsHistory(t *testing.T) {
 	st := vstat.New("C04", "ecscache.history",
 		"rapid stateful histories (new query | repeat an earlier question, possibly as another client | advance clock) against ecscache.Middleware with harness-clocked stores; non-trivial = response served without an upstream call, distinct by (cache key incl. effective subnet, age bucket of 500ms)",
-		"hit", "hit-late", "miss-after-expiry", "uncacheable-repeat", "hit-other-case", "override", "hit-scoped", "hit-other-client")
+		"hit", "hit-late", "miss-after-expiry", "uncacheable-repeat", "hit-other-case", "override", "hit-scoped", "hit-other-client", "near-miss-do", "near-miss-do-v6", "near-miss-qtype", "near-miss-qclass")
 	st.Finish(t)
 
 	rapid.Check(t, func(t *rapid.T) {
@@ -429,10 +429,29 @@ func TestVerifC04EcsHistory(t *testing.T) {
 			}
 
 			var q vc04Query
+			nearMiss := ""
 			if op >= 3 && len(asked) > 0 {
 				q = asked[rapid.IntRange(0, len(asked)-1).Draw(t, "repeat")]
 				if rapid.Bool().Draw(t, "otherClient") {
 					q.client = vc04DrawClient(t)
+				}
+
+				// Near miss: the same question except for exactly one component
+				// that a correct cache key must distinguish.
+				switch rapid.IntRange(0, 7).Draw(t, "nearMiss") {
+				case 1, 2:
+					q.do = !q.do
+					nearMiss = "do"
+				case 3:
+					q.qt = map[uint16]uint16{dns.TypeA: dns.TypeAAAA, dns.TypeAAAA: dns.TypeA}[q.qt]
+					if q.qt == 0 {
+						q.qt = dns.TypeA
+					}
+
+					nearMiss = "qtype"
+				case 4:
+					q.qc = map[uint16]uint16{dns.ClassINET: dns.ClassCHAOS, dns.ClassCHAOS: dns.ClassINET}[q.qc]
+					nearMiss = "qclass"
 				}
 			} else {
 				kind := vdns.Kind(rapid.IntRange(0, int(vdns.KKinds)-1).Draw(t, "kind"))
@@ -533,6 +552,13 @@ func TestVerifC04EcsHistory(t *testing.T) {
 			e, inModel := model[modelKey]
 			age := clk.now - e.stored
 			classes := []string{"kind-" + vdns.KindNames[kind]}
+			if nearMiss != "" {
+				classes = append(classes, "near-miss-"+nearMiss)
+				if c.Remote.Is6() || (c.ECSMode != 0 && c.ECSSubnet.Addr().Is6()) {
+					classes = append(classes, "near-miss-"+nearMiss+"-v6")
+				}
+			}
+
 			nt := ""
 			if fromCache {
 				nt = fmt.Sprintf("%s@%d", modelKey, age/(500*time.Millisecond))
